@@ -30,7 +30,7 @@ class Prop(BaseProp):
 
     def streams(self, rng, tier):
         targets = [128, 256, 512, 1024, 2048, 4096] if tier == "quick" else [128, 256, 1024, 4096, 16384, 65536]
-        per = 12 if tier == "quick" else 40
+        per = 12 if tier == "quick" else 32
         table = gear_table()
         zero_top = [b for b in range(256) if (table[b] >> 56) == 0][:4]
         cases = []
@@ -43,7 +43,7 @@ class Prop(BaseProp):
                 if tier == "quick":
                     size = min(size, 40000)
                 else:
-                    size = min(size, 600000)
+                    size = min(size, 150000)
                 if kind == "random":
                     data = bytes(rng.getrandbits(8) for _ in range(size))
                 elif kind == "constant":
